@@ -86,6 +86,7 @@ struct Step {                 // what the last executed instruction did (for com
   bool exited = false;
   uint8_t inst = 0;
   bool taken = false;
+  uint32_t maxAddr = 0;       // highest data word address the step read or wrote (0 if none)
 };
 
 class Machine {
@@ -176,6 +177,7 @@ public:
     mem[a] = v;
     if (trackWritten) written[a] = 1;
     last.wrote = true; last.waddr = a; last.wdata = v;
+    if (a > last.maxAddr) last.maxAddr = a;
   }
 
   // Execute one instruction.  The caller has classified it as inside the domain.
@@ -186,14 +188,14 @@ public:
     pc = pc + 1;
     oreg = oreg | (inst & 15);
     switch (inst >> 4) {
-      case LDAM: areg = mem[oreg]; oreg = 0; break;
-      case LDBM: breg = mem[oreg]; oreg = 0; break;
+      case LDAM: last.maxAddr = oreg; areg = mem[oreg]; oreg = 0; break;
+      case LDBM: last.maxAddr = oreg; breg = mem[oreg]; oreg = 0; break;
       case STAM: store(oreg, areg); oreg = 0; break;
       case LDAC: areg = oreg; oreg = 0; break;
       case LDBC: breg = oreg; oreg = 0; break;
       case LDAP: areg = pc + oreg; oreg = 0; break;
-      case LDAI: areg = mem[areg + oreg]; oreg = 0; break;
-      case LDBI: breg = mem[breg + oreg]; oreg = 0; break;
+      case LDAI: last.maxAddr = areg + oreg; areg = mem[areg + oreg]; oreg = 0; break;
+      case LDBI: last.maxAddr = breg + oreg; breg = mem[breg + oreg]; oreg = 0; break;
       case STAI: store(breg + oreg, areg); oreg = 0; break;
       case BR: pc = pc + oreg; oreg = 0; last.taken = true; break;
       case BRZ: if (areg == 0) { pc = pc + oreg; last.taken = true; } oreg = 0; break;
@@ -208,6 +210,7 @@ public:
           case SVC: {
             uint32_t sp = mem[1];
             last.syscall = true; last.sysno = areg;
+            last.maxAddr = sp + (areg == 1 ? 3 : 2);
             if (areg == 0) { exitValue = mem[sp + 2]; running = false; last.exited = true; }
             else if (areg == 1) { io->write((uint8_t)(mem[sp + 2] & 0xFF), (int32_t)mem[sp + 3]); }
             else { uint32_t v = io->read((int32_t)mem[sp + 2]); store(sp + 1, v & 0xFF); }
